@@ -60,10 +60,15 @@ class CallMixin:
         """A fresh list enumerating the (finite) set in an ARBITRARY order:
         distinct, and exactly the members.  This is the model of python set
         iteration order (C16: nothing may depend on it)."""
+        orig = s
         s = self.named(st, s)
         es = s.sort.elem
         perm = fresh(ListSort(es), "perm")
         n, arr = perm.t
+        # non-emptiness in the form the set was BUILT (e.g. a conjunction for an intersection), so that the
+        # skolem witness of `if not S` / `if S` meets it without going through the name
+        x0 = z3.Const(fresh_name("ne"), es.z)
+        st.assume(z3.ForAll([x0], z3.Implies(z3.Select(orig.t[0], x0), n > 0)))
         idx = z3.Function(fresh_name("idx"), es.z, z3.IntSort())
         i = z3.Int(fresh_name("pi"))
         x = z3.Const(fresh_name("px"), es.z)
@@ -74,6 +79,14 @@ class CallMixin:
         st.assume(z3.ForAll([x], z3.Implies(z3.Select(s.t[0], x),
                   z3.And(0 <= idx(x), idx(x) < n, z3.Select(arr, idx(x)) == x)),
                   patterns=[z3.Select(s.t[0], x)]))
+        if not orig.t[0].eq(s.t[0]):
+            # the same fact stated over the set AS BUILT (e.g. `a[x] and b[x]` for an intersection): membership facts
+            # derived before the set got its name then reach the enumeration without array extensionality
+            st.assume(z3.ForAll([x], z3.Implies(z3.Select(orig.t[0], x),
+                      z3.And(0 <= idx(x), idx(x) < n, z3.Select(arr, idx(x)) == x))))
+            i2 = z3.Int(fresh_name("pj"))
+            st.assume(z3.ForAll([i2], z3.Implies(z3.And(0 <= i2, i2 < n), z3.Select(orig.t[0], z3.Select(arr, i2))),
+                      patterns=[z3.Select(arr, i2)]))
         return perm
 
     # ---------------------------------------------------------------- comprehensions
@@ -213,6 +226,7 @@ class CallMixin:
         idx = self.dict_kidx(d)
         x = z3.Const(fresh_name("wk"), kz)
         st.assume(klen >= 0)
+        st.assume(z3.Implies(klen > 0, z3.Select(has, z3.Select(karr, 0))))     # ground instance: a non-empty dict has its first key
         st.assume(z3.ForAll([i], z3.Implies(z3.And(0 <= i, i < klen),
                   z3.And(z3.Select(has, z3.Select(karr, i)), idx(z3.Select(karr, i)) == i)),
                   patterns=[z3.Select(karr, i)]))
